@@ -241,7 +241,7 @@ fn miri_main(args: &[String]) -> i32 {
             eprintln!("miri: --profile … --seed N | --trace-text TEXT");
             return 2;
         };
-        ops::generate(run_seed(seed, prof, 0), prof, true)
+        ops::generate_kind(run_seed(seed, prof, 0), prof, true, Some(seed % 5))
     };
     model::LIGHT.store(true, std::sync::atomic::Ordering::Relaxed);
     let rep = run_one(&tr, &RunOpts { miri: true, exe: None });
@@ -274,7 +274,10 @@ fn main() {
         Some("gen") => {
             // print the generated programme of one run (debugging aid)
             let prof = arg_val(&args, "--profile").and_then(|p| Profile::parse(&p)).unwrap_or(Profile::Safety);
-            let tr = ops::generate(run_seed(arg_u64(&args, "--base", 0), prof, arg_u64(&args, "--idx", 0)), prof, args.iter().any(|a| a == "--miri"));
+            let miri = args.iter().any(|a| a == "--miri");
+            let base = arg_u64(&args, "--base", 0);
+            // with --miri, --base is a Miri workload number (as in `dsim miri --seed`)
+            let tr = ops::generate_kind(run_seed(base, prof, arg_u64(&args, "--idx", 0)), prof, miri, if miri { Some(base % 5) } else { None });
             print!("{}", Trace { profile: prof.name().into(), runs: vec![tr] }.to_text());
             0
         }
